@@ -1,5 +1,6 @@
 """Runs inside /venv/bin/python with PYTHONPATH=/repo:/verif: applies impl.<pid>.<func> to every
 JSON case on stdin; prints 'R <json>' per case. Exceptions become {"exc": class, "sigma": bool}."""
+from impl.excname import exc_name
 import sys, json, importlib
 
 def main():
@@ -18,7 +19,7 @@ def main():
         except BaseException as e:  # noqa
             if isinstance(e, (KeyboardInterrupt, SystemExit, MemoryError)):
                 raise
-            r = {"exc": type(e).__name__, "sigma": isinstance(e, SigmaError), "msg": str(e)[:200]}
+            r = {"exc": exc_name(e), "sigma": isinstance(e, SigmaError), "msg": str(e)[:200]}
         out.write("R " + json.dumps(r) + "\n")
     out.flush()
 
